@@ -40,6 +40,11 @@ META = dict(
     design_ref="DESIGN.md §3 C31")
 
 
+K_DERIVED = ("mj_loadModelBuffer overwrites the size mj_makeModel derived (nnames_map) with the file's value after comparing "
+             "only nbuffer: an inconsistent size block whose padded total coincides is accepted and the array reads overflow "
+             "inside m->buffer (out-of-bounds write in bufread)")
+
+
 def _key(k: str) -> str:
     """driver key -> canonical key (one per unvalidated field / root cause)."""
     if k.startswith("unvalidated:"):
@@ -86,13 +91,24 @@ def _job(job):
             if labels is None:
                 labels = open(plan).read().splitlines()
             fault = labels[int(p)]
-            field = fault.split(" ", 1)[0]
-            kind, fn, _ = rx.crash_key(rest, objs)
+            field = re.sub(r"\[\d+\]|_\d+$", "", fault.split(" ", 1)[0])
             n += 1
             part["nontrivial_count"] += 1
+            if rest.startswith("exit97"):
+                # CPU limit of the point (a corrupted size of 2^31 makes mj_makeModel / mj_makeData allocate and clear GBs):
+                # resource exhaustion, not a memory-safety verdict
+                part.add("outcome cpu-limit (huge size accepted or being allocated)", 1)
+                part.add("cpu_limit_points", 1)
+                continue
+            kind, fn, _ = rx.crash_key(rest, objs)
+            names = [rx._frame_fn(f, objs) or "" for f in (rest.split("frames: ", 1)[1].split(" | ")[0].split("<") if "frames: " in rest else [])]
             part.add("crash_points", 1)
-            part.violation("crash after corrupting %s: %s in %s" % (re.sub(r"\[\d+\]|_\d+$", "", field), kind, fn),
-                           "%s: fault '%s': process died: %s" % (name, fault, rest[:400]), dict(model=name, fault=fault))
+            if "bufread" in names and "mj_loadModelBuffer" in names:
+                key = K_DERIVED
+            else:
+                key = "crash after corrupting %s: %s in %s" % (field, kind, next((x for x in names if x and not x.startswith("__")), fn))
+            part.violation(key, "%s: fault '%s': process died: %s; frames %s" % (name, fault, rest[:300], "<".join(names[:4])),
+                           dict(model=name, fault=fault))
     part["evaluations"] += n
     part.add("points[%s]" % name, n)
     return part
